@@ -69,6 +69,9 @@ HASHABLE_ATOMS = ("i", "s", "b", "f", "n", "by")
 
 
 def gen_atom(rng, kn, classes):
+    if kn.get("tw_p") and rng.random() < kn["tw_p"]:
+        kn["_tw"][0] += 1
+        return ["tw", rng.choice(kn["tw_kinds"]), kn["_tw"][0]]
     r = rng.random()
     if r < 0.25:
         return ["i", rng.choice([0, 1, 2, 7, -3])]
